@@ -47,3 +47,11 @@ package blob
 //@   ensures limited: br.reader != nil && br.desc.Size > 0 ==> $dyntype($teeSrc(br.reader), *limitread.LimitRead) && $unbox($teeSrc(br.reader), *limitread.LimitRead).Limit == br.desc.Size && $unbox($teeSrc(br.reader), *limitread.LimitRead).Reader == br.origRdr
 //@   ensures unlimited: br.reader != nil && br.desc.Size <= 0 ==> $teeSrc(br.reader) == br.origRdr
 //@   ensures reader-iff-source: (br.reader != nil) == (br.origRdr != nil)
+// What the caller configured wins over what the response claims: a digest / size / media type
+// given through the options is never replaced by a header value (the end-of-stream comparison in
+// Read is made against the caller's descriptor, not against the server's own label).
+//@   loop 0 (opt)
+//@     exit-let configured = bc.desc
+//@   ensures callers-digest-kept: configured.Digest != "" ==> br.desc.Digest == configured.Digest
+//@   ensures callers-size-kept: configured.Size != 0 ==> br.desc.Size == configured.Size
+//@   ensures header-digest-only-when-none-given: br.desc.Digest == configured.Digest || configured.Digest == ""
